@@ -78,6 +78,7 @@ def _add_book(system, writer, add_book):
 
         for item in add_book:
             if item in system.models:
+                system.models[item].cache.refresh("df_in")
                 system.models[item].cache.df_in.to_excel(writer, sheet_name=item, freeze_panes=(1, 0))
                 logger.info('<%s> template sheet added.', item)
             else:
